@@ -120,7 +120,7 @@ def run(ctx):
         hostdrive.monitor_c13(ctx, tr)
         traces.append(tr)
     hostdrive.compare(ctx, traces)
-    run_generic(ctx, hostdrive.monitor_c13, ctx.scale(100, 2500),
+    run_generic(ctx, hostdrive.monitor_c13, ctx.scale(250, 2500),
                 weights=dict(start=4, ack=4, rsp=4, rsp2=1.5, tick=3, cancel=3, badack=0.5, close=0.3, lost=0.1))
 
 
